@@ -44,7 +44,7 @@ def run_pair(ctx, script, h, d, what, timeout=None, env=None):
     A script normally runs in well under 3 s; a run that exceeds the timeout is a hang of the
     library's loops (reported as a crash-kind failure with the script as the failing input)."""
     if timeout is None:
-        timeout = 45 if ctx.tier == "quick" else 300
+        timeout = 300 if ctx.tier == "quick" else 900   # generous: the machine may be heavily loaded
         # once several failing inputs are known, stop burning time (a hanging library costs a full
         # timeout per script); the failures already found are reported
         if _STATE["fails"] >= 4:
@@ -60,7 +60,7 @@ def run_pair(ctx, script, h, d, what, timeout=None, env=None):
         if rc1 == 124:
             det = "HANG: the harness did not finish within %ds (after %d observations)" % (timeout, len(impl))
         if rc1 == -14:
-            det = "HANG: one library call did not return within 15 s (harness watchdog; after %d observations)" % len(impl)
+            det = "HANG: one library call did not return within the watchdog time (harness watchdog; after %d observations)" % len(impl)
         return impl, [], {"kind": kind, "what": what + (": direct oracle" if kind == "oracle" else ": harness exit %d" % rc1),
                           "detail": det, "script": script, "impl": impl[-6:], "nobs": len(impl)}
     if not ctx.driver_ok:
@@ -78,7 +78,7 @@ def run_pair(ctx, script, h, d, what, timeout=None, env=None):
 
 
 def fails_same(ctx, script, h, d, kind):
-    _, _, f = run_pair(ctx, script, h, d, "shrink", timeout=8, env={"C11_WATCHDOG": "2"})
+    _, _, f = run_pair(ctx, script, h, d, "shrink", timeout=20, env={"C11_WATCHDOG": "5"})
     return f is not None and (f["kind"] == kind or (kind in ("oracle", "crash") and f["kind"] in ("oracle", "crash")))
 
 
@@ -116,7 +116,7 @@ def shrink(ctx, f, h, d, budget=40.0):
                 break
             n = min(len(lines), n * 2)
     script = "verbose 1\n" + "\n".join(lines) + "\n"
-    impl, model, g = run_pair(ctx, script, h, d, f["what"], timeout=20, env={"C11_WATCHDOG": "3"})
+    impl, model, g = run_pair(ctx, script, h, d, f["what"], timeout=60, env={"C11_WATCHDOG": "15"})
     out = dict(g or f)
     out["what"] = f["what"]
     out["script"] = script.splitlines()
